@@ -1,9 +1,22 @@
 import PersimVerif.Drv.Util
-/-! driver commands: Heat (stub until the model lands) -/
+import PersimVerif.Model.Heat
+/-! driver commands for C14 (model at `Float`):
+    `heat <dgm1> <dgm2> <sigma>`  →  `[k(F,F), k(G,G), k(F,G), dist2, heat, heatOld]` -/
 namespace PersimVerif.Drv.Heat
 open PersimVerif Val PersimVerif.Drv
 
+def piF : Float := 3.141592653589793
+
 def handle : Handler
+  | "heat", [a, b, s] => do
+    let d1 ← floatDgm? a
+    let d2 ← floatDgm? b
+    let sigma ← asFloat? s
+    let k := fun x y => PersimVerif.Heat.evalHeatKernel Float.exp piF x y sigma
+    pure (ofFloats [k d1 d1, k d2 d2, k d1 d2,
+      PersimVerif.Heat.dist2 Float.exp piF d1 d2 sigma,
+      PersimVerif.Heat.heat Float.exp Float.sqrt piF d1 d2 sigma,
+      PersimVerif.Heat.heatOld Float.exp Float.sqrt piF d1 d2 sigma])
   | _, _ => none
 
 end PersimVerif.Drv.Heat
